@@ -5,6 +5,7 @@ open Netpol
 
 /-- how a backend designates a service port -/
 inductive Designator where
+  | byNumberLenient (n : Int) -- the tool's reading of an Ingress `port.number`: service port number OR targetPort (known finding)
   | byNumber (n : Int)
   | byName (s : String)
   | all                       -- a Route without `port`
@@ -18,6 +19,7 @@ number or targetPort equals it; every port when unspecified. -/
 def designated (d : Designator) (ports : List SvcPort) : List SvcPort :=
   match d with
   | .byNumber n => ports.filter (·.port == n)
+  | .byNumberLenient n => (ports.find? (fun p => p.port == n || p.targetNum == some n)).toList
   | .byName s => ports.filter (fun p => p.name != "" && p.name == s)
   | .all => ports
   | .routeNum n => (ports.find? (fun p => p.port == n || p.targetNum == some n)).toList
@@ -35,17 +37,18 @@ def reachedPort (w : Pod) (sp : SvcPort) : Option Int :=
     | none => none
   | none, none => if tcpPorts.contains sp.port then some sp.port else none
 
-def backendDesignator (b : IngBackend) : Designator :=
+def backendDesignator (lenient : Bool) (b : IngBackend) : Designator :=
+  let num (n : Int) : Designator := if lenient then .byNumberLenient n else .byNumber n
   match b.portName with
-  | some s => if s != "" then .byName s else .byNumber (b.portNum.getD 0)
-  | none => .byNumber (b.portNum.getD 0)
+  | some s => if s != "" then .byName s else num (b.portNum.getD 0)
+  | none => num (b.portNum.getD 0)
 
 /-- all (service name, designator) pairs of Ingresses and Routes in a namespace -/
-def nsTargets (objs : List Obj) (ns : String) : List (String × Designator) :=
+def nsTargets (objs : List Obj) (ns : String) (lenient : Bool := false) : List (String × Designator) :=
   objs.flatMap fun o =>
     match o with
     | .ing i => if i.ns != ns then [] else
-        ((match i.default with | some b => [b] | none => []) ++ i.rules.flatMap id).map fun b => (b.svc, backendDesignator b)
+        ((match i.default with | some b => [b] | none => []) ++ i.rules.flatMap id).map fun b => (b.svc, backendDesignator lenient b)
     | .route r => if r.ns != ns then [] else
         let d := match r.targetPortNum, r.targetPortName with
           | some n, _ => Designator.routeNum n
@@ -64,11 +67,11 @@ def targeted (objs : List Obj) (w : Pod) : Bool :=
       | _ => false
 
 /-- the TCP ports of workload `w` exposed through Ingress/Route → Service -/
-def ingressPorts (objs : List Obj) (w : Pod) : List Int :=
+def ingressPorts (objs : List Obj) (w : Pod) (lenient : Bool := false) : List Int :=
   let svcs := objs.filterMap fun o => match o with
     | .svc s => if s.ns == w.ns && !s.selector.isEmpty && s.selector.all (fun kv => w.labels.get? kv.1 == some kv.2) then some s else none
     | _ => none
-  (nsTargets objs w.ns).flatMap fun (svcName, d) =>
+  (nsTargets objs w.ns lenient).flatMap fun (svcName, d) =>
     -- the last Service document with that name is the one in effect
     match (svcs.filter (·.name == svcName)).getLast? with
     | none => []
